@@ -103,6 +103,7 @@ type MemSpec struct {
 //	mgrow       memory.grow 1 (result dropped)
 //	tset A B C  table A (funcref) slot B = ftab[C]
 //	call A      call function A (an import or an earlier function of the module), results dropped
+//	gsetf A C   global A (mutable funcref) = ftab[C]
 //	trap        unreachable
 type Op struct {
 	K string `json:"k"`
@@ -360,6 +361,8 @@ func emitOps(b *wasmenc.B, ops []Op, v *view, ftab uint32) {
 			b.I32Const(1).MemoryGrow().Drop()
 		case "tset":
 			b.I32Const(int32(o.B)).I32Const(int32(o.C)).TableGet(ftab).TableSet(uint32(o.A))
+		case "gsetf":
+			b.I32Const(int32(o.C)).TableGet(ftab).GlobalSet(uint32(o.A))
 		case "call":
 			sg := v.fsig[o.A]
 			pushDummy(b, sg)
